@@ -60,10 +60,28 @@ def ulps(a: float, b: float) -> float:
     return abs(a - b) / max(np.spacing(max(abs(a), abs(b))), 5e-324)
 
 
+class ListArg:
+    """a `List α` input of a translated function (pytrans `sym_lists`: a table axis): the same list for every case; it travels
+    as ONE token, the bit patterns of its elements joined by commas"""
+
+    def __init__(self, values):
+        self.values = [float(v) for v in np.asarray(values, dtype=np.float64).ravel()]
+
+    def token(self) -> str:
+        return ",".join(f2h(v) for v in self.values) or "-"
+
+
 def _tok(c, i) -> str:
     """one input token: Boolean columns (dtype bool) travel as 0/1, everything else as the bit pattern of the double"""
     v = c[i]
+    if isinstance(v, ListArg):
+        return v.token()
     return ("1" if v else "0") if isinstance(v, (bool, np.bool_)) else f2h(float(v))
+
+
+def _show(v):
+    """an input value as it is written into a disagreement record"""
+    return v.values if isinstance(v, ListArg) else float(v)
 
 
 def _cases(columns, n=None) -> int:
@@ -117,11 +135,11 @@ def compare(ctx: Ctx, prop: str, name: str, columns, real_outputs, rtol=1e-12, a
                     if bool_margin is not None and bool_margin[j] is not None and bool(bool_margin[j][i]):
                         ctx.near_boundary_skipped += 1
                     else:
-                        ctx.disagree(f"{prop}.src.{name}", {"inputs": [float(c[i]) for c in columns], "output": j, "translated": m, "code": bool(r)})
+                        ctx.disagree(f"{prop}.src.{name}", {"inputs": [_show(c[i]) for c in columns], "output": j, "translated": m, "code": bool(r)})
                 continue
             if kinds and kinds[j] == "Nat":
                 if int(toks[j]) != int(r):
-                    ctx.disagree(f"{prop}.src.{name}", {"inputs": [float(c[i]) for c in columns], "output": j, "translated": int(toks[j]), "code": int(r)})
+                    ctx.disagree(f"{prop}.src.{name}", {"inputs": [_show(c[i]) for c in columns], "output": j, "translated": int(toks[j]), "code": int(r)})
                     same = False
                 continue
             m = h2f(toks[j])
@@ -141,7 +159,7 @@ def compare(ctx: Ctx, prop: str, name: str, columns, real_outputs, rtol=1e-12, a
                     d = min(d, periods[j] - d)
                 # (the two raw values differ: a non-finite one on either side is a disagreement, `inf <= inf` must not accept it)
                 if not (math.isfinite(tm) and math.isfinite(tr) and d <= rtol * max(abs(tm), abs(tr)) + a):
-                    ctx.disagree(f"{prop}.src.{name}", {"inputs": [float(c[i]) for c in columns], "output": j, "translated": m, "code": r})
+                    ctx.disagree(f"{prop}.src.{name}", {"inputs": [_show(c[i]) for c in columns], "output": j, "translated": m, "code": r})
         ident += same
     ctx.count(f"src_{name}_cases", n)
     ctx.count(f"src_{name}_bit_identical", ident)
